@@ -71,6 +71,8 @@ CTOR_CHECKS = {
 # lists hand classes as `mk_hand .. H_none` so that get_rdata_class resolution sees their modules)
 COQ_HAND = {"hip": "HHip", "ipseckey": "HIpseckey", "amtrelay": "HAmtrelay", "apl": "HApl", "svcb": "HSvcb", "loc": "HLoc", "opt": "HOpt"}
 
+NARROW = []   # filled by finalize(): constructor bounds narrower than the wire format allows
+
 UMAX = {1: 255, 2: 65535, 4: 4294967295, 6: 281474976710655}
 FMT = {"B": 1, "H": 2, "I": 4}
 
@@ -948,6 +950,12 @@ def finalize(name, ctor, wfields, rfields, world, chain):
             if k == "Counted":
                 cap = 256 ** fl["w"] - 1
                 out.update(w=fl["w"], lo=lo, hi=cap if hi is None else min(cap, hi))
+                if hi is not None and hi < cap and fl["w"] == 1:
+                    # a character-string may be as long as its length octet allows (RFC 1035 3.3):
+                    # a narrower constructor bound refuses legal values.  The table mirrors the code,
+                    # the generators keep the full width ("gen_hi") so that the oracle finds the value.
+                    out["gen_hi"] = cap
+                    NARROW.append(f"{name}: constructor accepts at most {hi} octets for parameter {ctor.params[p] if p is not None else '?'} although the length prefix allows {cap}")
             elif k == "OptC8":
                 if lo != 0:
                     raise Unsupported(f"{name}: optional tail with non-empty constraint")
@@ -995,6 +1003,10 @@ def finalize(name, ctor, wfields, rfields, world, chain):
                         raise Unsupported(f"{name}: list of strings is not a list of counted strings")
                     row[0]["lo"] = max(row[0]["lo"], inf.get("minlen", 0))
                     if inf.get("maxlen") is not None:
+                        cap = 256 ** row[0]["w"] - 1
+                        if inf["maxlen"] < cap and row[0]["w"] == 1:
+                            row[0]["gen_hi"] = cap
+                            NARROW.append(f"{name}: constructor accepts at most {inf['maxlen']} octets per string although the length prefix allows {cap}")
                         row[0]["hi"] = min(row[0]["hi"], inf["maxlen"])
                 elif kind == "name_list":
                     if not (len(row) == 1 and row[0]["k"] == "Name"):
@@ -1060,6 +1072,7 @@ RDCLASS = {"ANY": 255, "IN": 1, "CH": 3}
 
 def translate(repo):
     _helper_cache.clear()
+    del NARROW[:]
     world = World(repo)
     types = []
     errors = []
@@ -1098,6 +1111,7 @@ def translate(repo):
             ent["error"] = str(e)
             errors.append(f"{rel}: {e}")
         types.append(ent)
+    errors += sorted(set(NARROW))
     return {"ok": not errors, "errors": errors, "types": types, "repo": repo,
             "rdatatype_members": sorted(set(world.rdatatypes.values()))}
 
@@ -1186,7 +1200,11 @@ def emit_coq(tr, modname="GenRdtypes"):
 if __name__ == "__main__":
     repo = sys.argv[1] if len(sys.argv) > 1 else os.environ.get("VERIF_REPO", "/repo")
     tr = translate(repo)
-    if "--coq" in sys.argv:
+    if "--snapshot" in sys.argv:
+        out = os.path.join(os.path.dirname(os.path.dirname(os.path.abspath(__file__))), "meta", "C02.schema_snapshot.json")
+        json.dump({"types": tr["types"]}, open(out, "w"), indent=0, sort_keys=True)
+        print("wrote", out)
+    elif "--coq" in sys.argv:
         print(emit_coq(tr))
     else:
         json.dump(tr, sys.stdout, indent=1)
